@@ -12,7 +12,7 @@ package verifharness
 //   module <0|1>                                 -> ok        (params.EnableAggregate)
 //   sendenabled <denom> <0|1>                    -> ok        (bank SendEnabled of one denom)
 //   fund <addr> <denom> <amt>                    -> ok        (mint coins to an account)
-//   register <denom> <kind> <owner>              -> ok <n> | err   (kind std = real RegisterCoin; others = pair written to the
+//   register <denom> <kind> <owner>              -> ok <n> | err   (kind std = real RegisterCoin; others (tiny0/1/2, tinyd, revert, nocode, balrevert) = pair written to the
 //                                                              store over a hand-assembled contract; owner m|x|u)
 //   addcoin <denom> <existing denom>             -> ok | err  (real AddCoin: a second denom on the same pair)
 //   toggle <denom>                               -> ok | err  (real ToggleRelay)
@@ -21,7 +21,8 @@ package verifharness
 //   recv <seq,sp,sc,dp,dc,data> <dec> <amt|none> <rcv|none> <hookdenom> <inner ack> <k> (<addr> <denom> <delta>)*k
 //        packet; then what the external decoders say (computed here with the node's own libraries); then what the
 //        wrapped transfer module did on the copy (its acknowledgement and its bank effect)
-//                                                -> ack=<..|nil> com=<..|nil> ev=<S|F|-> rv=<n|-> mv=<n> tok=<n|x|-> reg=<0|1> | panic
+//                                                -> ack=<..|nil> com=<..|nil> ev=<S|F|-> rv=<n|-> mv=<n> tok=<n|x|-> mtok=<n|x|-> reg=<0|1> | panic
+//        (tok / mtok: token balance of the receiver / of the module account in the pair's contract)
 
 import (
 	"bytes"
@@ -89,6 +90,11 @@ func (a *c16Asm) jumpiTo(l string) *c16Asm {
 	a.fix[len(a.code)-1] = l
 	return a.op(0x57)
 }
+func (a *c16Asm) jumpTo(l string) *c16Asm {
+	a.op(0x60, 0x00)
+	a.fix[len(a.code)-1] = l
+	return a.op(0x56)
+}
 func (a *c16Asm) label(l string) *c16Asm { a.labels[l] = len(a.code); return a.op(0x5b) }
 func (a *c16Asm) done() []byte {
 	for pos, l := range a.fix {
@@ -117,6 +123,25 @@ func c16TinyCode(k byte) []byte {
 	return a.done()
 }
 
+// tinyd: an honest minimal ledger. mint(to, x): storage[to] += x; transfer(to, x): revert unless storage[caller] >= x,
+// storage[caller] -= x, storage[to] += x; both return true; balanceOf(a): storage[a]; anything else reverts.
+func c16TinyDebitCode() []byte {
+	a := &c16Asm{labels: map[string]int{}, fix: map[int]string{}}
+	a.op(0x60, 0x00, 0x35, 0x60, 0xe0, 0x1c) // selector
+	a.op(0x80).push4(c16SelBalanceOf).op(0x14).jumpiTo("bal")
+	a.op(0x80).push4(c16SelMint).op(0x14).jumpiTo("credit")
+	a.push4(c16SelTransfer).op(0x14).jumpiTo("tr")
+	a.label("rev").op(0x60, 0x00, 0x60, 0x00, 0xfd)
+	a.label("bal").op(0x60, 0x04, 0x35, 0x54, 0x60, 0x00, 0x52, 0x60, 0x20, 0x60, 0x00, 0xf3)
+	// tr: [x, bal[caller]]; revert if bal[caller] < x; bal[caller] -= x
+	a.label("tr").op(0x60, 0x24, 0x35, 0x33, 0x54, 0x81, 0x81, 0x10).jumpiTo("rev").op(0x03, 0x33, 0x55)
+	a.jumpTo("credit")
+	// credit: bal[to] += x; return true
+	a.label("credit").op(0x60, 0x24, 0x35, 0x60, 0x04, 0x35, 0x54, 0x01, 0x60, 0x04, 0x35, 0x55)
+	a.op(0x60, 0x01, 0x60, 0x00, 0x52, 0x60, 0x20, 0x60, 0x00, 0xf3)
+	return a.done()
+}
+
 // balrevert: mint/transfer return true without effect; everything else (balanceOf) reverts.
 func c16BalRevertCode() []byte {
 	a := &c16Asm{labels: map[string]int{}, fix: map[int]string{}}
@@ -136,6 +161,8 @@ func c16KindCode(kind string) []byte {
 		return c16TinyCode(1)
 	case "tiny2":
 		return c16TinyCode(2)
+	case "tinyd":
+		return c16TinyDebitCode()
 	case "revert":
 		return []byte{0x60, 0x00, 0x60, 0x00, 0xfd}
 	case "balrevert":
@@ -586,6 +613,10 @@ func (w *c16World) recv(r *Rec, p c16Pkt) (string, string) {
 	if hadPair {
 		tok = w.tokenBalance(w.ctx, pairBefore.GetERC20Contract(), recvEvm)
 	}
+	mtok := "-"
+	if hadPair {
+		mtok = w.tokenBalance(w.ctx, pairBefore.GetERC20Contract(), aggregatetypes.ModuleAddress)
+	}
 	reg := "0"
 	if w.app.AggregateKeeper.IsDenomRegistered(w.ctx, hookDenom) {
 		reg = "1"
@@ -597,11 +628,17 @@ func (w *c16World) recv(r *Rec, p c16Pkt) (string, string) {
 	case converted:
 		r.Count("recv.converted")
 		r.Count("recv.converted." + kind)
+		if hadPair && pairBefore.IsNativeERC20() {
+			r.Count("recv.converted.external")
+		}
 	case ev == "S":
 		r.Count("recv.pair-deleted")
 	case hadPair:
 		r.Count("recv.conversion-failed")
 		r.Count("recv.conversion-failed." + kind)
+		if pairBefore.IsNativeERC20() {
+			r.Count("recv.conversion-failed.external")
+		}
 	default:
 		r.Count("recv.unregistered")
 	}
@@ -629,7 +666,7 @@ func (w *c16World) recv(r *Rec, p c16Pkt) (string, string) {
 		}
 	}
 	r.Nontrivial(strings.Join(w.hist, ";"))
-	return line, fmt.Sprintf("ack=%s com=%s ev=%s rv=%s mv=%s tok=%s reg=%s", c16AckStr(mwAck), com, ev, rv, mv, tok, reg)
+	return line, fmt.Sprintf("ack=%s com=%s ev=%s rv=%s mv=%s tok=%s mtok=%s reg=%s", c16AckStr(mwAck), com, ev, rv, mv, tok, mtok, reg)
 }
 
 func c16Metadata(denom string) banktypes.Metadata {
@@ -724,6 +761,10 @@ func (w *c16World) apply(r *Rec, op string) string {
 				w.app.EvmKeeper.SetCode(w.ctx, h, code)
 				if err := w.app.EvmKeeper.SetAccount(w.ctx, addr, statedb.Account{Nonce: 1, Balance: new(big.Int), CodeHash: h}); err != nil {
 					r.t.Fatalf("SetAccount: %v", err)
+				}
+				if kind == "tinyd" { // the module account holds 10^33 tokens (its token escrow) from the start
+					pre := new(big.Int).Exp(big.NewInt(10), big.NewInt(33), nil)
+					w.app.EvmKeeper.SetState(w.ctx, addr, common.BytesToHash(aggregatetypes.ModuleAddress.Bytes()), common.BigToHash(pre).Bytes())
 				}
 			}
 			pair := aggregatetypes.NewTokenPair(addr, []string{d}, true, own)
@@ -899,7 +940,7 @@ func TestC16(t *testing.T) {
 	goodAmt := []string{"1", "7", "1000000", "123456789012345678901234567890"}
 	oddAmt := []string{"0", "-1", "", "abc", "1.5", "0x10", "1_0", " 5", "+3", max256.String(), new(big.Int).Add(max256, big.NewInt(1)).String(),
 		new(big.Int).Lsh(big.NewInt(1), 255).String(), "00012"}
-	kinds := []string{"std", "std", "std", "std", "std", "tiny1", "tiny1", "tiny2", "tiny0", "revert", "nocode"}
+	kinds := []string{"std", "std", "std", "std", "std", "tiny1", "tiny1", "tinyd", "tinyd", "tinyd", "tiny2", "tiny0", "revert", "nocode"}
 	cp := func(dc string) string { return c16Counterparty[dc] }
 	for i := 0; i < hist; i++ {
 		h := []string{"reset", w.initLine()}
@@ -922,8 +963,8 @@ func TestC16(t *testing.T) {
 				switch x := rng.Intn(12); {
 				case x == 0:
 					owner = "u"
-				case x <= 2 || (x <= 4 && strings.HasPrefix(kind, "tiny")):
-					owner = "x"
+				case x <= 2 || (x <= 4 && strings.HasPrefix(kind, "tiny")) || (x <= 8 && kind == "tinyd"):
+					owner = "x" // succeeds only with tinyd (really debits the pre-funded module account)
 				}
 			}
 			if kind == "std" {
@@ -942,11 +983,13 @@ func TestC16(t *testing.T) {
 			dc := pick([]string{"channel-1", "channel-1", "channel-2"})
 			sc, base := cp(dc), pick(bases)
 			kind, owner := "std", "m"
-			if rng.Intn(3) == 0 {
+			switch rng.Intn(6) {
+			case 0:
 				kind = "tiny1"
-				if rng.Intn(2) == 0 {
-					owner = "x"
-				}
+			case 1:
+				kind = "tinyd"
+			case 2:
+				kind, owner = "tinyd", "x"
 			}
 			regAs(sc, base, kind, owner)
 			switch rng.Intn(4) {
@@ -954,7 +997,11 @@ func TestC16(t *testing.T) {
 			case 2:
 				reg(dc, base)
 			default:
-				regAs(dc, base, pick([]string{"std", "tiny1"}), "m")
+				if rng.Intn(3) == 0 {
+					regAs(dc, base, "tinyd", "x")
+				} else {
+					regAs(dc, base, pick([]string{"std", "tiny1", "tinyd"}), "m")
+				}
 			}
 			for _, a := range goodRecv {
 				if rng.Intn(4) > 0 {
